@@ -16,7 +16,7 @@ Lemma unobservable : forall evs units d d' m,
   observable (run hf units d m evs) = observable (run hf units d' m (strip evs)).
 Proof.
   induction evs as [|ev rest IH]; intros units d d' m; [destruct m; reflexivity|].
-  destruct ev as [f|[lvl|]| | |]; cbn [strip run].
+  destruct ev as [f| |[lvl|]| | |]; cbn [strip run].
   - destruct m as [|r].
     + destruct (hf units f) as [[[bytes|e|] units'] lg]; try reflexivity.
       specialize (IH units' d d' (match bytes with [] => MIdle | _ => MWriting bytes end)).
@@ -24,6 +24,7 @@ Proof.
       destruct (run hf units' d' _ (strip rest)) as [[[[ws2 u2] lg2] dd2] e2].
       cbn [observable] in *. inversion IH; subst. reflexivity.
     + apply IH.
+  - destruct m as [|r]; [reflexivity|apply IH].
   - apply IH.
   - reflexivity.
   - reflexivity.
@@ -42,7 +43,7 @@ Proof.
   rewrite (unobservable (pre ++ ECommand (ChangeDecoding lvl) :: post) units d d m).
   rewrite (unobservable (pre ++ post) units d d m).
   f_equal. f_equal. clear. induction pre as [|ev pre IH]; [reflexivity|].
-  destruct ev as [f|[l|]| | |]; cbn [app strip]; rewrite ?IH; reflexivity.
+  destruct ev as [f| |[l|]| | |]; cbn [app strip]; rewrite ?IH; reflexivity.
 Qed.
 
 (* ---------------------------------------------------------------- Shutdown / closed channel *)
@@ -59,10 +60,11 @@ Lemma shutdown_ends ev post : ends ev -> forall pre units d m,
 Proof.
   intros Hev. induction pre as [|e0 pre IH]; intros units d m.
   - cbn [app]. destruct Hev as [-> | ->]; destruct m; reflexivity.
-  - cbn [app]. destruct e0 as [f|[lvl|]| | |]; cbn [run].
+  - cbn [app]. destruct e0 as [f| |[lvl|]| | |]; cbn [run].
     + destruct m as [|r]; [|apply IH].
       destruct (hf units f) as [[[bytes|e|] units'] lg]; try reflexivity.
       rewrite IH. destruct (run hf units' d _ pre) as [[[[ws u] lg'] dd] e]. reflexivity.
+    + destruct m as [|r]; [reflexivity|apply IH].
     + apply IH.
     + reflexivity.
     + reflexivity.
@@ -119,9 +121,10 @@ Lemma run_ext {St E} (hf hf' : ucfg St -> frame -> outcome E (list N) * ucfg St 
   run hf units d m evs = run hf' units d m evs.
 Proof.
   intros Hagree. induction evs as [|ev rest IH]; intros units d m Hall; [reflexivity|].
-  inversion Hall as [|? ? Hev Hrest]; subst. destruct ev as [f|[lvl|]| | |]; cbn [run]; try reflexivity.
+  inversion Hall as [|? ? Hev Hrest]; subst. destruct ev as [f| |[lvl|]| | |]; cbn [run]; try reflexivity.
   - destruct m as [|r]; [|apply IH; assumption]. rewrite <- Hagree by assumption.
     destruct (hf units f) as [[[bytes|e|] units'] lg]; try reflexivity. rewrite IH by assumption. reflexivity.
+  - destruct m as [|r]; [reflexivity|apply IH; assumption].
   - apply IH; assumption.
   - destruct m as [|r]; [apply IH; assumption|]. rewrite IH by assumption. reflexivity.
   - destruct m as [|r]; [apply IH; assumption|reflexivity].
@@ -150,10 +153,11 @@ Lemma ok_run_end l a : forall evs units d m,
   no_failure (snd (run (fun u f => ok_result (E := serr) (ref_handle_frame H l a u f)) units d m evs)).
 Proof.
   induction evs as [|ev rest IH]; intros units d m; [destruct m; exact I|].
-  destruct ev as [f|[lvl|]| | |]; cbn [run]; try exact I.
+  destruct ev as [f| |[lvl|]| | |]; cbn [run]; try exact I.
   - destruct m as [|r]; [|apply IH]. destruct (ref_handle_frame H l a units f) as [[bytes units'] lg]. cbn [ok_result].
     specialize (IH units' d (match bytes with [] => MIdle | _ => MWriting bytes end)).
     destruct (run _ units' d _ rest) as [[[[ws u] lg'] dd] e]. exact IH.
+  - destruct m as [|r]; [exact I|apply IH].
   - apply IH.
   - destruct m as [|r]; [apply IH|]. specialize (IH units d MIdle).
     destruct (run _ units d MIdle rest) as [[[[ws u] lg'] dd] e]. exact IH.
